@@ -24,13 +24,14 @@
 (*     tasks, of its workers and the task numbers in completion order.                                    *)
 (*     Verdict (C31): same report, same exit status, no race; the completion order is one that the        *)
 (*     queue of PkgDiff admits (so that the orders seen are orders the model has explored).               *)
-EXTENDS PkgDiff, IOUtils
+EXTENDS PkgDiff, IOUtils, KnownFindings
 
 T == ndJsonDeserialize(IOEnv.TRACE)
 VARIABLES l, verdict
 
 (* ---- known findings: placeholders; the integrator moves them to KnownFindings.tla ------------------ *)
-KF_C30(ev) == FALSE
+(* C30: see KnownFindings!KF_C30_listed -- the structural condition is Classify(ev) = "bad:binaries-paired-by-common-prefix",  *)
+(* i.e. the observed report and exit are exactly PkgDiff!Outcome with the key deviation transcribed and the status corrected.   *)
 KF_C31(ev) == FALSE
 (* ---------------------------------------------------------------------------------------------------- *)
 
@@ -52,7 +53,7 @@ PkgVerdict(ev) ==
   IF ev.ret # "ok" THEN "bad:abnormal-termination"
   ELSE IF ~(NoDup(ev.removed) /\ NoDup(ev.added) /\ NoDup(ev.changedListed)) THEN "bad:binary-listed-twice"
   ELSE IF VerdictHolds(Rep(ev), ev.size, ev.pkg1, ev.pkg2, ev.pairBits) THEN "ok"
-  ELSE IF KF_C30(ev) THEN "kf:C30-verdict"
+  ELSE IF KF_C30_listed /\ Classify(ev) = "bad:binaries-paired-by-common-prefix" THEN "kf:C30-paired-by-common-prefix"
   ELSE Classify(ev)
 
 ParVerdict(ev) ==
